@@ -185,6 +185,20 @@ def orbOf (g : Sym) (v : Array Nat) : Option Orb :=
      | _ => none)
   | _ => none
 
+/-- the two decidable monitors under which `Props/C07.lean : private_orbifold_symbol_agrees` shows
+    that the generator's private key is on the list iff this orbifold is: C08's parity monitor
+    (evenness of 2 − χ − #boundaries for weakly oriented symbols) and "a
+    symbol that is not weakly oriented has at least one cross-cap" — facts of surface topology
+    about the handle / cross-cap count of `delaney2d::orbifold_symbol`, not about the generator -/
+def monitorsOf (g : Sym) (v : Array Nat) : Bool :=
+  match DS.ofTables g.size 2 g.opAt (fun i d => v.getD (i * g.size + (d - 1)) 0) with
+  | .ok data =>
+    D2.parityMonitor ⟨data, .partialSym⟩ &&
+    (match D2.orbifoldSymbol ⟨data, .partialSym⟩ with
+     | .ok o => o.orientable || decide (o.count ≥ 1)
+     | _ => false)
+  | _ => false
+
 /-- the orbifolds named by the generator's fixed list -/
 def goodOrbs : List Orb := Tables.goodSphericalOrbifolds.filterMap SpecC08.parseSymbol
 
@@ -257,6 +271,8 @@ structure Oracle where
   hyperbolic : List (List Nat)
   /-- box members with K > 0 and all v ≤ 7, with the orbifold the C08 model names (none = undefined) -/
   positive : List (List Nat × Option Orb)
+  /-- the monitors hold on every member of `positive` -/
+  monitors : Bool
 
 def mkOracle (g : Sym) : Oracle :=
   let orbs := orbits g
@@ -267,7 +283,9 @@ def mkOracle (g : Sym) : Oracle :=
     euclidean := (bx.filter fun p => p.2.isZero).map (·.1),
     hyperbolic := (bx.filter fun p => p.2.isNeg && minimallyHyperbolic n orbs vmins p.1).map (·.1),
     positive := (bx.filter fun p => p.2.isPos && p.1.all (· ≤ sphericalMaxV)).map fun p =>
-      (p.1, orbOf g (vTab g orbs p.1)) }
+      (p.1, orbOf g (vTab g orbs p.1)),
+    monitors := (bx.filter fun p => p.2.isPos && p.1.all (· ≤ sphericalMaxV)).all fun p =>
+      monitorsOf g (vTab g orbs p.1) }
 
 def Oracle.spherical (o : Oracle) : List (List Nat) :=
   (o.positive.filter fun p => match p.2 with | some b => onGoodList b | none => false).map (·.1)
@@ -336,6 +354,7 @@ def clauses (g : Sym) (geom : GeomIdx) (out : List Emitted) : List (String × Bo
     ("good-list-entries-are-orbifold-symbols", goodListParses),
     ("oracle-box-premise-holds", candPremise n o.orbs o.vmins boxTop),
     ("oracle-orbifold-symbols-are-defined", o.positive.all fun p => p.2.isSome),
+    ("oracle-genus-monitors-hold", o.monitors),
     ("emitted-symbol-is-on-exactly-the-input-dset",
       syms.all fun s => s.size == g.size && s.dim == g.dim && s.op == g.op),
     ("emitted-symbol-is-complete",
